@@ -168,8 +168,15 @@ def keyLt : List Chunk → List Chunk → Bool
 
 def nameLe (a b : Seg) : Bool := !(keyLt (alphanumKey b) (alphanumKey a))
 
-/-- `list.sort(key=alphanum_key)`: stable -/
-def sortNames (l : List Seg) : List Seg := l.mergeSort nameLe
+/-- stable insertion: `x` came before every element of the (sorted) tail and stays before equals -/
+def insertName (x : Seg) : List Seg → List Seg
+  | [] => [x]
+  | y :: ys => if nameLe x y then x :: y :: ys else y :: insertName x ys
+
+/-- `list.sort(key=alphanum_key)`: stable (modelled as a stable insertion sort) -/
+def sortNames : List Seg → List Seg
+  | [] => []
+  | x :: xs => insertName x (sortNames xs)
 
 /-! ### accesses and outcomes -/
 
@@ -214,10 +221,8 @@ def serveDap (exts : List Seg) (fs : FS) (p : Segs) : List Access × Outcome :=
     else (pre, .unsupported base)
   else (pre, .notFound)
 
-/-- `DapServer.__call__` (repaired code): the accesses performed, in order, and the outcome.
-    `pathInfo` is `req.path_info`. -/
-def serve (exts : List Seg) (fs : FS) (root : Segs) (pathInfo : List Char) : List Access × Outcome :=
-  let p := resolve root (splitSlash pathInfo)
+/-- `DapServer.__call__` after `path` has been computed -/
+def serveAt (exts : List Seg) (fs : FS) (root : Segs) (p : Segs) : List Access × Outcome :=
   if !contained root p then ([], .forbidden)
   else
     match fs p with
@@ -235,6 +240,14 @@ def serve (exts : List Seg) (fs : FS) (root : Segs) (pathInfo : List Char) : Lis
           let r := serveDap exts fs p
           (⟨.stat, dirname p⟩ :: r.1, r.2)
       else serveDap exts fs p
+
+/-- the resolved request path: `os.path.abspath(os.path.join(self.path, *req.path_info.split("/")))` -/
+def target (root : Segs) (pathInfo : List Char) : Segs := resolve root (splitSlash pathInfo)
+
+/-- `DapServer.__call__` (repaired code): the accesses performed, in order, and the outcome.
+    `pathInfo` is `req.path_info`. -/
+def serve (exts : List Seg) (fs : FS) (root : Segs) (pathInfo : List Char) : List Access × Outcome :=
+  serveAt exts fs root (target root pathInfo)
 
 /-- well-formed normalised component: not `""`, `.`, `..`, and free of separators -/
 def SegOK (s : Seg) : Prop := s ≠ [] ∧ s ≠ dot ∧ s ≠ dotdot ∧ '/' ∉ s
